@@ -53,6 +53,25 @@ type mix struct {
 	Stored bool `json:"stored,omitempty"`
 }
 
+// hyphenNames reports whether a source or integration name of the mix contains '-'.
+func (m mix) hyphenNames() bool {
+	for _, l := range [][]srcSpec{m.FileSrcs, m.DBSrcs} {
+		for _, s := range l {
+			if strings.Contains(s.Name, "-") {
+				return true
+			}
+		}
+	}
+	for _, l := range [][]igSpec{m.FileIGs, m.DBIGs} {
+		for _, ig := range l {
+			if strings.Contains(ig.Name, "-") {
+				return true
+			}
+		}
+	}
+	return false
+}
+
 // refTask is one expected task, rendered canonically.
 func refTask(src, ig string, start, stop uint64, batch, conc int) string {
 	return fmt.Sprintf("%s/%s start=%d stop=%d batch=%d conc=%d", src, ig, start, stop, batch, conc)
@@ -132,7 +151,7 @@ var addrA = simeth.Addr("contract-A")
 // JSON form is complete without config.ValidateFix (database rows never pass through it).
 func decl(ig igSpec) *world.Decl {
 	en := ig.Enabled
-	d := &world.Decl{Name: ig.Name, Table: "t_" + ig.Name, Event: "Transfer", FilterAgg: "or", Enabled: &en}
+	d := &world.Decl{Name: ig.Name, Table: "t_" + strings.ReplaceAll(ig.Name, "-", "_"), Event: "Transfer", FilterAgg: "or", Enabled: &en}
 	d.Inputs = []world.Input{
 		{Name: "from", Type: "address", Indexed: true, Column: "f"},
 		{Name: "to", Type: "address", Indexed: true, Column: "t"},
